@@ -249,5 +249,14 @@ ExactDeterminant(Mj, d, n) == IsSquareOf(Mj, n) /\ (\A i \in 1..n : IntsOk(RowsO
 (* growth rho <= 2^(n-1) (Higham, Accuracy and Stability, Thm 9.5); the guard adds a factor *)
 (* > 5 and a further factor 8 for complex arithmetic.  The harness measures the residual in *)
 (* double-double arithmetic and logs it in integer units of eps*(||A|| ||x|| + ||b||).      *)
-GeppGuard(n, cx) == (IF cx THEN 8 ELSE 1) * 8 * n * n * n * Pow2(n - 1)
+UnitsCap == 1073741823       \* logged units saturate at 2^30: a guard at the cap only rejects non-finite / saturated errors
+GeppGuard(n, cx) == IF n > 8 THEN UnitsCap ELSE (IF cx THEN 8 ELSE 1) * 8 * n * n * n * Pow2(n - 1)
+(* The same theorem without the worst-case growth: whoever pivots on a row of largest magnitude computes (up to      *)
+(* rounding) the factors L, U of partial pivoting, and then |b - A x| <= gamma_3n |L||U||x| componentwise (Higham,   *)
+(* Thm 9.4), gamma_3n ~ 1.5 n eps.  The harness computes || |L||U| ||_inf by a reference elimination in double-double *)
+(* and logs the residual in units of eps || |L||U| || ||x|| - only when no pivot choice of that elimination is tied   *)
+(* or nearly tied (so that every correct tie-break obtains the same factors).  Guard: 64 n (x8 complex), i.e. a factor *)
+(* > 40 above the theorem.  This is the bound that separates partial pivoting from threshold / no pivoting on matrices *)
+(* whose actual growth is small, and the only usable one for n > 8.                                                  *)
+SharpGuard(n, cx) == (IF cx THEN 8 ELSE 1) * 64 * n
 =============================================================================
